@@ -44,6 +44,8 @@ const aliasWord = "plus"
 type table struct {
 	gx.Table
 	Alias   string          // operator the text alias "plus" stands for, "" = no alias configured
+	// quotedOp: the malformed space's alphabet has a quoted identifier spelled like the first binary operator
+	quotedOp bool
 	// Order: sequence of the builder calls that hand the table to the parser (same table in every order):
 	// 0 Op(all).Unary(all); 1 Unary(all).Op(all); 2 Op(first half).Unary(all).Op(second half)
 	Order int
@@ -250,6 +252,13 @@ func (t *table) lex(src string) ([]tok, bool) {
 				out = append(out, tok{k: kIdent, s: w})
 			}
 			i = j
+		case c == '\'':
+			j := strings.IndexByte(src[i+1:], '\'')
+			if j < 0 {
+				return out, false
+			}
+			out = append(out, tok{k: kIdent, s: src[i : i+j+2]})
+			i += j + 2
 		case c == '$' && i+1 < len(src) && t.unph[src[i:i+2]] != "":
 			out = append(out, tok{k: kOp, s: t.unph[src[i:i+2]]})
 			i += 2
